@@ -5,7 +5,7 @@
    named by the state it was produced in, Marshal is the identity.
 
    in : fsm <id> <variant: 3 chars, fix_d3 fix_d15 fix_d18> <proto> <sink> L <entry>* S <step>*
-        entry = <idx>:<kind c|i|m>:<ts>:<exp|->:<hex payload>
+        entry = <idx>:<kind c|i|m>:<ts>:<exp|->:<rev>:<hex payload>
         step = A | S<t>:ok | S<t>:fail<n> | SP<t>:<k>:ok | SP<t>:<k>:fail<n> | R | X | Q..
    out: fsm <id> | <step record> | ...     (exactly the Go driver's line, with state/batch digests
         replaced by descriptors: the '.'-joined indexes of the applied entries, `!` = applied as
@@ -22,12 +22,12 @@ Definition d_apply (s : dS) (e : entry) : dS * list dO :=
   ((s ++ [e])%list, match e_kind e with KMoD => [] | _ => [s] end).
 Definition d_marshal (s : dS) (k : N) : dB := (s, k).
 Definition d_unmarshal (b : dB) : option (dS * N) := Some b.
-Fixpoint d_exp_of_aux (s : dS) (acc : N) : N :=
-  match s with
-  | [] => acc
-  | e :: r => d_exp_of_aux r (if sets_exp e then match e_exp e with Some d => d | None => acc end else acc)
-  end.
-Definition d_exp_of (s : dS) : N := d_exp_of_aux s 0.
+(* (revision in force, SessionExpiration): a Config entry takes effect iff it parses and carries revision + 1 *)
+Definition d_cfg_step (c : N * N) (e : entry) : N * N :=
+  if sets_exp (fst c) e then (e_rev e, match e_exp e with Some d => d | None => snd c end) else c.
+Definition d_cfg_of (s : dS) : N * N := fold_left d_cfg_step s (0%N, 0%N).
+Definition d_exp_of (s : dS) : N := snd (d_cfg_of s).
+Definition d_rev_of (s : dS) : N := fst (d_cfg_of s).
 
 Definition dfsm := fsm dS dO dB.
 Definition dworld := world dS dO dB.
@@ -38,7 +38,7 @@ Definition parse_kind (s : string) : kind :=
 
 Definition parse_entry (tok : string) : entry :=
   let f := split_on ":"%char tok in
-  mkEntry (N_field f 0) (Z_field f 2) (parse_kind (nth_field f 1)) (N_of_dec (nth_field f 3)) (nth_field f 4).
+  mkEntry (N_field f 0) (Z_field f 2) (parse_kind (nth_field f 1)) (N_of_dec (nth_field f 3)) (N_field f 4) (nth_field f 5).
 
 Fixpoint take_entries (l : list string) : list entry * list string :=
   match l with
@@ -82,6 +82,7 @@ Definition dump (w : dworld) : string :=
                                     match snd kv with s :: _ => desc s | [] => "?" end) (outstore f)) ++
   " keys=" ++ show_list (map show_key (lss f)) ++
   " exp=" ++ dec_of_Z (eff_exp (expdur f)) ++
+  " rev=" ++ dec_of_N (d_rev_of (server f)) ++
   " srv=" ++ desc (server f) ++
   " n=" ++ dec_of_nat (w_applied w).
 
@@ -93,17 +94,17 @@ Definition drive_step (v : variant) (L : list entry) (w : dworld) (tok : string)
   if Ascii.eqb c "A"%char then
     match nth_error L (w_applied w) with
     | Some e => Some ("A" ++ dec_of_N (e_idx e),
-                      do_step dS dO dB d_init d_apply d_marshal d_unmarshal d_exp_of v L w (SApply (w_applied w)))
+                      do_step dS dO dB d_init d_apply d_marshal d_unmarshal d_exp_of d_rev_of v L w (SApply (w_applied w)))
     | None => Some ("A:end", w)
     end
   else if Ascii.eqb c "R"%char then
     match w_persisted w with
     | [] => Some ("R:none", w)
-    | _ => Some ("R:ok", do_step dS dO dB d_init d_apply d_marshal d_unmarshal d_exp_of v L w SRestore)
+    | _ => Some ("R:ok", do_step dS dO dB d_init d_apply d_marshal d_unmarshal d_exp_of d_rev_of v L w SRestore)
     end
   else if Ascii.eqb c "X"%char then
     Some (match w_persisted w with [] => "X:none" | _ => "X:snap" end,
-          do_step dS dO dB d_init d_apply d_marshal d_unmarshal d_exp_of v L w SRestart)
+          do_step dS dO dB d_init d_apply d_marshal d_unmarshal d_exp_of d_rev_of v L w SRestart)
   else if Ascii.eqb c "S"%char then
     (* S<t>:ok|fail..        Snapshot + Persist back to back
        SP<t>:<k>:ok|fail..   Snapshot now, k more entries applied, then Persist of that snapshot *)
@@ -112,10 +113,10 @@ Definition drive_step (v : variant) (L : list entry) (w : dworld) (tok : string)
     let t := Z_field f 0 in
     let k := if late then N.to_nat (N_field f 1) else O in
     let ok := String.eqb (nth_field f (if late then 2 else 1)%nat) "ok" in
-    match fsm_snapshot dS dO dB d_init d_apply d_marshal d_unmarshal d_exp_of v t (w_fsm w) with
+    match fsm_snapshot dS dO dB d_init d_apply d_marshal d_unmarshal d_exp_of d_rev_of v t (w_fsm w) with
     | None => Some ("S:err", w)
     | Some (f', sn) =>
-        let w' := do_step dS dO dB d_init d_apply d_marshal d_unmarshal d_exp_of v L w (SSnapshot t k ok) in
+        let w' := do_step dS dO dB d_init d_apply d_marshal d_unmarshal d_exp_of d_rev_of v L w (SSnapshot t k ok) in
         let head := "S:" ++ dec_of_N (sn_first sn) ++ ":" ++ dec_of_N (sn_last sn) ++ ":" ++ show_state (sn_state sn) in
         if ok then
           let p := persist dS dO dB (w_fsm w') sn (w_applied w) in
@@ -160,7 +161,7 @@ Fixpoint mod_runs (fuel : nat) (L : list entry) : list string :=
   match fuel with
   | O => ["fuel"]
   | Datatypes.S n =>
-      match run_process dS dO dB m_apply_cmd m_apply_mod d_exp_of L (fresh_fsm dS dO dB d_init []) L with
+      match run_process dS dO dB m_apply_cmd m_apply_mod d_exp_of d_rev_of L (fresh_fsm dS dO dB d_init []) L with
       | Exited _ _ _ k L' => ("exit@" ++ dec_of_N k ++ " " ++ show_kinds L') :: mod_runs n L'
       | Finished _ _ _ f => ["done " ++ show_kinds L ++ " srv=" ++ desc (server f)]
       end
